@@ -29,3 +29,9 @@ Proof. intros (HT & H2 & H2s & Hcb) H0. unfold timing in *. unfold fn_send_reque
 Theorem tie_send_request_server_no_overall_W cfg S2 S2S P2 P2S now a1 : timing cfg None P2 P2S -> now < a1 ->
   fn_send_request_server_no_overall_W S2 S2S P2 P2S now a1 = ret (obs_sr (send_request cfg (set_timing st_init S2 S2S) tp_req (-1) now [(a1, Frame [127; 62; 120])])).
 Proof. intros (HT & H2 & H2s & Hcb) H0. unfold timing in *. unfold fn_send_request_server_no_overall_W. sr_tac HT H2 H2s Hcb. Qed.
+Theorem tie_send_request_percall_server_W cfg T Tp S2 S2S P2 P2S now a1 : timing cfg (Some T) P2 P2S -> 0 <= Tp -> now < a1 ->
+  fn_send_request_percall_server_W T Tp S2 S2S P2 P2S now a1 = ret (obs_sr (send_request cfg (set_timing st_init S2 S2S) tp_req Tp now [(a1, Frame [127; 62; 120])])).
+Proof. intros (HT & H2 & H2s & Hcb) H0 H1. unfold timing in *. unfold fn_send_request_percall_server_W. replace (Tp <? 0) with false by lia; sr_tac HT H2 H2s Hcb. Qed.
+Theorem tie_send_request_percall_server_WP cfg T Tp S2 S2S P2 P2S now a1 a2 : timing cfg (Some T) P2 P2S -> 0 <= Tp -> now < a1 ->
+  fn_send_request_percall_server_WP T Tp S2 S2S P2 P2S now a1 a2 = ret (obs_sr (send_request cfg (set_timing st_init S2 S2S) tp_req Tp now [(a1, Frame [127; 62; 120]); (a2, Frame [126; 0])])).
+Proof. intros (HT & H2 & H2s & Hcb) H0 H1. unfold timing in *. unfold fn_send_request_percall_server_WP. replace (Tp <? 0) with false by lia; sr_tac HT H2 H2s Hcb. Qed.
